@@ -553,10 +553,17 @@ class Mul(ArithmeticBinOp):
 
 
 class Div(ArithmeticBinOp):
-    """Division operator."""
+    """Division operator (true division, as in UFL and Python)."""
 
     precedence = PRECEDENCE.DIV
     op = "/"
+
+    def __init__(self, lhs, rhs):
+        """Initialise."""
+        super().__init__(lhs, rhs)
+        if self.dtype == DataType.INT:
+            # The quotient of two integers is a real number
+            self.dtype = DataType.REAL
 
 
 class EQ(BinOp):
